@@ -124,6 +124,8 @@ pub enum Scenario {
     Gc,
     /// same-signature functions in different modules (C04)
     Twins,
+    /// like Gc but short (<= 24 operations, <= 4 nodes): the histories the Miri tier interprets
+    GcSmall,
 }
 
 impl Scenario {
@@ -131,6 +133,7 @@ impl Scenario {
         match s {
             "general" => Some(Scenario::General),
             "gc" => Some(Scenario::Gc),
+            "gcsmall" => Some(Scenario::GcSmall),
             "twins" => Some(Scenario::Twins),
             _ => None,
         }
@@ -139,6 +142,7 @@ impl Scenario {
         match self {
             Scenario::General => "general",
             Scenario::Gc => "gc",
+            Scenario::GcSmall => "gcsmall",
             Scenario::Twins => "twins",
         }
     }
@@ -192,10 +196,14 @@ pub fn generate(seed: u64, scenario: Scenario) -> Case {
     let mut rng = Rng::new(seed);
     // ---- swarm configuration: everything below is drawn from the one seed ----
     let n_cells = rng.range(1, MAX_CELLS as u64) as u8;
-    let n_nodes = rng.range(1, MAX_NODES as u64) as u8;
+    let n_nodes = if matches!(scenario, Scenario::GcSmall) {
+        rng.range(1, 4) as u8
+    } else {
+        rng.range(1, MAX_NODES as u64) as u8
+    };
     let value_domain = rng.range(2, 4) as i64;
     let capacity = match scenario {
-        Scenario::Gc => *rng.pick(&[1usize, 1, 2, 2, 3, 5]),
+        Scenario::Gc | Scenario::GcSmall => *rng.pick(&[1usize, 1, 2, 2, 3, 5]),
         _ => *rng.pick(&[1usize, 2, 3, 5, 10_000, 10_000]),
     };
     let n_stable = rng.below(n_cells as u64 + 1) as u8;
@@ -206,7 +214,7 @@ pub fn generate(seed: u64, scenario: Scenario) -> Case {
 
     // atom weights: a random subset is switched off per run (swarm testing)
     let mut aw: [u32; 12] = [6, 3, 5, 7, 2, 3, 2, 1, 1, 3, 2, 2];
-    if matches!(scenario, Scenario::Gc) {
+    if matches!(scenario, Scenario::Gc | Scenario::GcSmall) {
         aw[9] += 5;
         aw[10] += 3;
         aw[11] += 2;
@@ -253,7 +261,7 @@ pub fn generate(seed: u64, scenario: Scenario) -> Case {
         Scenario::General => [
             14, 4, 8, 3, 2, 24, 4, 2, 2, 2, 3, 3, 4, 2, 2, 2, 1, 3, 1, 1, 1, 5, 0,
         ],
-        Scenario::Gc => [
+        Scenario::Gc | Scenario::GcSmall => [
             10, 3, 5, 2, 1, 12, 2, 1, 1, 1, 5, 8, 9, 4, 4, 4, 2, 8, 4, 3, 2, 14, 0,
         ],
         Scenario::Twins => [
@@ -266,7 +274,11 @@ pub fn generate(seed: u64, scenario: Scenario) -> Case {
             *w = 0;
         }
     }
-    let n_ops = rng.range(5, 60) as usize;
+    let n_ops = if matches!(scenario, Scenario::GcSmall) {
+        rng.range(5, 24) as usize
+    } else {
+        rng.range(5, 60) as usize
+    };
     let mut ops = Vec::with_capacity(n_ops + stable.len());
     for k in &stable {
         ops.push(Op::Set(*k, rng.below(value_domain as u64) as i64));
